@@ -29,7 +29,7 @@ theorem keepStatementsAfterJump_eq (c : Chunk) (i : Nat) (s : WS) :
 theorem splitChunkForBranch_spec (c : Chunk) (i : Nat) (s : WS) (rest : List Stmt)
     (hi : i < c.statements.length) (hrest : c.statements.drop (i + 1) = rest) :
     ∃ nw, Grows s (splitChunkForBranch c i s).1 nw ∧
-      (∀ q ∈ nw, IsCode q) ∧
+      (∀ q ∈ nw, IsCode q ∧ q.statements = rest) ∧
       qbinders nw = bindersL rest ∧
       PostOK rest c.returnID (splitChunkForBranch c i s).2 (s.counter + 1) ∧
       (∀ G cx, (∀ q ∈ nw, Realizes G cx q) → rest ≠ [] → OneDefaultL rest →
@@ -46,7 +46,7 @@ theorem splitChunkForBranch_spec (c : Chunk) (i : Nat) (s : WS) (rest : List Stm
     have hr : rest ≠ [] := by rw [← hrest, Ne, List.drop_eq_nil_iff]; omega
     refine ⟨[{ id := s.counter + 1, returnID := c.returnID, statements := c.statements.drop (i + 1) }],
       Grows.allocPush s _ rfl, ?_, ?_, ⟨fun h => absurd h hr, fun _ => rfl⟩, ?_⟩
-    · intro q hq; simp only [List.mem_singleton] at hq; subst hq; exact ⟨rfl, rfl⟩
+    · intro q hq; simp only [List.mem_singleton] at hq; subst hq; exact ⟨⟨rfl, rfl⟩, hrest⟩
     · rw [qbinders_cons, qbinders_nil, hrest]; simp
     · intro G cx h _ hod
       have := h _ (List.mem_singleton.2 rfl)
@@ -183,6 +183,18 @@ theorem armChunks_mem (ret : Option Nat) : ∀ (arms : List (BoolExpr × List St
     rcases h with rfl | h
     · exact ⟨by simp, by simp, rfl, rfl⟩
     · have := ih _ _ h; simp only [List.length_cons]; exact ⟨by omega, by omega, this.2.2⟩
+
+theorem armChunks_stmts (ret : Option Nat) : ∀ (arms : List (BoolExpr × List Stmt)) (n : Nat) (q : Chunk),
+    q ∈ armChunks ret n arms → q.statements ∈ arms.map (·.2) := by
+  intro arms
+  induction arms with
+  | nil => intro n q h; simp [armChunks] at h
+  | cons e r ih =>
+    intro n q h
+    simp only [armChunks, List.mem_cons] at h
+    rcases h with rfl | h
+    · simp
+    · simp only [List.map_cons, List.mem_cons]; exact .inr (ih _ _ h)
 
 theorem armChunks_nodup (ret : Option Nat) : ∀ (arms : List (BoolExpr × List Stmt)) (n : Nat),
     ((armChunks ret n arms).map (·.id)).Nodup := by
@@ -339,7 +351,7 @@ theorem grows_pushNew (s : WS) (ret : Option Nat) (st : List Stmt) :
   Grows.allocPush s _ rfl
 
 theorem elseStep_spec (post : Option Nat) (a : WS) (els : Option (List Stmt)) :
-    ∃ nw, Grows a (elseStep post a els).1 nw ∧ (∀ q ∈ nw, IsCode q) ∧
+    ∃ nw, Grows a (elseStep post a els).1 nw ∧ (∀ q ∈ nw, IsCode q ∧ els = some q.statements) ∧
       qbinders nw = (match els with | some l => bindersL l | none => []) ∧
       (els = none → (elseStep post a els).2 = none) ∧
       (∀ eb, els = some eb → (elseStep post a els).2 = some (a.counter + 1)) ∧
@@ -350,7 +362,7 @@ theorem elseStep_spec (post : Option Nat) (a : WS) (els : Option (List Stmt)) :
     exact ⟨[], Grows.refl a, by simp, rfl, fun _ => rfl, fun _ h => (by cases h), fun _ _ _ _ h => (by cases h)⟩
   | some st =>
     refine ⟨_, grows_pushNew a post st, ?_, ?_, fun h => (by cases h), fun _ _ => rfl, ?_⟩
-    · intro q hq; simp only [List.mem_singleton] at hq; subst hq; exact ⟨rfl, rfl⟩
+    · intro q hq; simp only [List.mem_singleton] at hq; subst hq; exact ⟨⟨rfl, rfl⟩, rfl⟩
     · rw [qbinders_cons, qbinders_nil]; simp
     · intro G cx hq eb he hod
       cases he
@@ -390,7 +402,9 @@ theorem createIf_spec (tok : Tok) (cond : BoolExpr) (body : List Stmt) (elifs : 
     (els : Option (List Stmt)) (c : Chunk) (i : Nat) (s s' : WS) (br : Branch) (ret : Option Nat)
     (rest : List Stmt) (hi : i < c.statements.length) (hrest : c.statements.drop (i + 1) = rest)
     (h : createIf cond body elifs els c i s = .ok (s', br, ret)) :
-    ∃ nw, Grows s s' nw ∧ (∀ q ∈ nw, QOK q) ∧
+    ∃ nw, Grows s s' nw ∧
+      (∀ q ∈ nw, QOK q ∧ (q.statements = [] ∨ q.statements = rest ∨
+        q.statements ∈ subBlocks (.ite tok cond body elifs els))) ∧
       (qbinders nw).Perm (binders (.ite tok cond body elifs els) ++ bindersL rest) ∧
       ∀ G cx ch, findChunk G c.id = some ch → ch.branch = br → ch.statements.length = i →
         (∀ q ∈ nw, Realizes G cx q) → OneDefaultL (.ite tok cond body elifs els :: rest) →
@@ -420,10 +434,17 @@ theorem createIf_spec (tok : Tok) (cond : BoolExpr) (body : List Stmt) (elifs : 
   · intro q hq
     simp only [List.mem_append] at hq
     rcases hq with ((hq | hq) | hq) | hq
-    · exact (csp q hq).qok
-    · exact (armChunks_mem _ _ _ q hq).2.2.qok
-    · exact (cel q hq).qok
-    · exact (hh q hq).qok
+    · exact ⟨(csp q hq).1.qok, .inr (.inl (csp q hq).2)⟩
+    · refine ⟨(armChunks_mem _ _ _ q hq).2.2.qok, .inr (.inr ?_)⟩
+      have := armChunks_stmts _ _ _ q hq
+      simp only [List.map_cons, List.mem_cons] at this
+      simp only [subBlocks, List.mem_cons, List.mem_append]
+      rcases this with h1 | h1
+      · exact .inl h1
+      · exact .inr (.inl h1)
+    · refine ⟨(cel q hq).1.qok, .inr (.inr ?_)⟩
+      simp [subBlocks, (cel q hq).2]
+    · exact ⟨(hh q hq).qok, .inl (hh q hq).1⟩
   · simp only [qbinders_append, bsp, qbinders_armChunks, bel,
       qbinders_helpers nh (fun q hq => (hh q hq).1), List.append_nil, binders_ite, bindersE_cons,
       List.append_assoc]
@@ -476,7 +497,8 @@ theorem loop_core (s0 s3 s' : WS) (nh : List Chunk) (post : Option Nat) (body : 
        { id := s0.counter + 1, returnID := post, branch := .jump tgt }])
     (hc : s'.counter = s3.counter) (hf : s'.final = s3.final) (hb : s'.brk = s3.brk)
     (hcn : s'.cont = s3.cont) :
-    ∃ nw, Grows s0 s' nw ∧ (∀ q ∈ nw, QOK q) ∧ qbinders nw = bindersL body ∧
+    ∃ nw, Grows s0 s' nw ∧ (∀ q ∈ nw, QOK q ∧ (q.statements = [] ∨ q.statements = body)) ∧
+      qbinders nw = bindersL body ∧
       ∀ G cx, (∀ q ∈ nw, Realizes G cx q) →
         (OneDefaultL body → Impl G cx (s0.counter + 1 + 1) 0 body (some (s0.counter + 1))) ∧
         jumpChunk G (s0.counter + 1) tgt ∧ (∀ q ∈ nh, IsHelperIn G q) := by
@@ -500,9 +522,9 @@ theorem loop_core (s0 s3 s' : WS) (nh : List Chunk) (post : Option Nat) (body : 
   · intro q hq'
     simp only [List.mem_append, List.mem_cons, List.mem_nil_iff, or_false] at hq'
     rcases hq' with hq' | rfl | rfl
-    · exact (hh q hq').qok
-    · exact IsCode.qok ⟨rfl, rfl⟩
-    · exact IsHelper.qok ⟨rfl, by simp, rfl⟩
+    · exact ⟨(hh q hq').qok, .inl (hh q hq').1⟩
+    · exact ⟨IsCode.qok ⟨rfl, rfl⟩, .inr rfl⟩
+    · exact ⟨IsHelper.qok ⟨rfl, by simp, rfl⟩, .inl rfl⟩
   · rw [qbinders_append, qbinders_helpers nh (fun q hq' => (hh q hq').1), qbinders_cons, qbinders_cons,
       qbinders_nil]
     simp [bindersL_nil]
@@ -522,7 +544,9 @@ theorem createWhile_spec (tok : Tok) (sid : Nat) (cond : Option BoolExpr) (body 
     (i : Nat) (s s' : WS) (br : Branch) (ret : Option Nat) (contId : Nat) (rest : List Stmt)
     (hi : i < c.statements.length) (hrest : c.statements.drop (i + 1) = rest)
     (h : createWhile cond body c i s = .ok (s', br, ret, contId)) :
-    ∃ nw, Grows s s' nw ∧ (∀ q ∈ nw, QOK q) ∧
+    ∃ nw, Grows s s' nw ∧
+      (∀ q ∈ nw, QOK q ∧ (q.statements = [] ∨ q.statements = rest ∨
+        q.statements ∈ subBlocks (.while_ tok sid cond body))) ∧
       (qbinders nw).Perm (bindersL body ++ bindersL rest) ∧
       ∀ G cx ch, findChunk G c.id = some ch → ch.branch = br → ch.statements.length = i →
         cx.brk sid = ret → cx.cont sid = some contId →
@@ -544,8 +568,11 @@ theorem createWhile_spec (tok : Tok) (sid : Nat) (cond : Option BoolExpr) (body 
     refine ⟨nsp ++ nl, gsp.trans gl, ?_, ?_, ?_⟩
     · intro q hq
       rcases List.mem_append.1 hq with hq | hq
-      · exact (csp q hq).qok
-      · exact cl q hq
+      · exact ⟨(csp q hq).1.qok, .inr (.inl (csp q hq).2)⟩
+      · refine ⟨(cl q hq).1, ?_⟩
+        rcases (cl q hq).2 with h1 | h1
+        · exact .inl h1
+        · exact .inr (.inr (by simp [subBlocks, h1]))
     · rw [qbinders_append, bsp, bl]; exact List.perm_append_comm
     · intro G cx ch hG hb hlenI hbrk hcont hq hod
       rw [odL_cons, od_while] at hod
@@ -565,8 +592,11 @@ theorem createWhile_spec (tok : Tok) (sid : Nat) (cond : Option BoolExpr) (body 
       refine ⟨nsp ++ nl, gsp.trans gl, ?_, ?_, ?_⟩
       · intro q hq
         rcases List.mem_append.1 hq with hq | hq
-        · exact (csp q hq).qok
-        · exact cl q hq
+        · exact ⟨(csp q hq).1.qok, .inr (.inl (csp q hq).2)⟩
+        · refine ⟨(cl q hq).1, ?_⟩
+          rcases (cl q hq).2 with h1 | h1
+          · exact .inl h1
+          · exact .inr (.inr (by simp [subBlocks, h1]))
       · rw [qbinders_append, bsp, bl]; exact List.perm_append_comm
       · intro G cx ch hG hb hlenI hbrk hcont hq hod
         rw [odL_cons, od_while] at hod
@@ -579,7 +609,9 @@ theorem createDoWhile_spec (tok : Tok) (sid : Nat) (cond : BoolExpr) (body : Lis
     (i : Nat) (s s' : WS) (br : Branch) (ret : Option Nat) (contId : Nat) (rest : List Stmt)
     (hi : i < c.statements.length) (hrest : c.statements.drop (i + 1) = rest)
     (h : createDoWhile cond body c i s = .ok (s', br, ret, contId)) :
-    ∃ nw, Grows s s' nw ∧ (∀ q ∈ nw, QOK q) ∧
+    ∃ nw, Grows s s' nw ∧
+      (∀ q ∈ nw, QOK q ∧ (q.statements = [] ∨ q.statements = rest ∨
+        q.statements ∈ subBlocks (.doWhile tok sid cond body))) ∧
       (qbinders nw).Perm (bindersL body ++ bindersL rest) ∧
       ∀ G cx ch, findChunk G c.id = some ch → ch.branch = br → ch.statements.length = i →
         cx.brk sid = ret → cx.cont sid = some contId →
@@ -602,8 +634,11 @@ theorem createDoWhile_spec (tok : Tok) (sid : Nat) (cond : BoolExpr) (body : Lis
     refine ⟨nsp ++ nl, gsp.trans gl, ?_, ?_, ?_⟩
     · intro q hq
       rcases List.mem_append.1 hq with hq | hq
-      · exact (csp q hq).qok
-      · exact cl q hq
+      · exact ⟨(csp q hq).1.qok, .inr (.inl (csp q hq).2)⟩
+      · refine ⟨(cl q hq).1, ?_⟩
+        rcases (cl q hq).2 with h1 | h1
+        · exact .inl h1
+        · exact .inr (.inr (by simp [subBlocks, h1]))
     · rw [qbinders_append, bsp, bl]; exact List.perm_append_comm
     · intro G cx ch hG hb hlenI hbrk hcont hq hod
       rw [odL_cons, od_doWhile] at hod
@@ -628,7 +663,8 @@ theorem switchBodies_cons_neg (ret : Option Nat) (v : Tok) (d : Bool) (body : Li
   rw [switchBodies, if_neg h]
 
 theorem switchBodies_spec (ret : Option Nat) : ∀ (cases : List SwitchCase) (s : WS),
-    ∃ nw, Grows s (switchBodies ret cases s).1 nw ∧ (∀ q ∈ nw, IsCode q) ∧
+    ∃ nw, Grows s (switchBodies ret cases s).1 nw ∧
+      (∀ q ∈ nw, IsCode q ∧ q.statements ∈ cases.map (·.2.2)) ∧
       qbinders nw = bindersC cases ∧
       (switchBodies ret cases s).2.length = cases.length ∧
       (((switchBodies ret cases s).2.all (·.isNone)) = true ↔ ∀ c ∈ cases, c.2.2 = []) ∧
@@ -654,8 +690,8 @@ theorem switchBodies_spec (ret : Option Nat) : ∀ (cases : List SwitchCase) (s 
       · intro q hq
         simp only [List.mem_cons] at hq
         rcases hq with rfl | hq
-        · exact ⟨rfl, rfl⟩
-        · exact hc q hq
+        · exact ⟨⟨rfl, rfl⟩, by simp⟩
+        · exact ⟨(hc q hq).1, by simp only [List.map_cons, List.mem_cons]; exact .inr (hc q hq).2⟩
       · rw [qbinders_cons, hbd, bindersC_cons]
       · simp only [List.all_cons, Option.isNone_some, Bool.false_and, Bool.false_eq_true, false_iff]
         intro h; exact hne (h (v, d, body) (by simp))
@@ -685,7 +721,8 @@ theorem switchBodies_spec (ret : Option Nat) : ∀ (cases : List SwitchCase) (s 
         | nil => rfl
         | cons x y => simp at hb
       subst he
-      refine ⟨nw, g, hc, ?_, by simp [hl], ?_, ?_, ?_⟩
+      refine ⟨nw, g, fun q hq => ⟨(hc q hq).1, by
+        simp only [List.map_cons, List.mem_cons]; exact .inr (hc q hq).2⟩, ?_, by simp [hl], ?_, ?_, ?_⟩
       · rw [hbd, bindersC_cons, bindersL_nil]; rfl
       · simp only [List.all_cons, Option.isNone_none, Bool.true_and, hall, List.mem_cons, forall_eq_or_imp,
           true_and]
@@ -734,7 +771,8 @@ theorem createSwitch_eq (operand : Tok) (cases : List SwitchCase) (c : Chunk) (i
   rfl
 
 theorem emptyStep_spec (post : Option Nat) (need : Bool) (s : WS) :
-    ∃ ne, Grows s (emptyStep post need s).1 ne ∧ (∀ q ∈ ne, IsCode q) ∧ qbinders ne = [] ∧
+    ∃ ne, Grows s (emptyStep post need s).1 ne ∧ (∀ q ∈ ne, IsCode q ∧ q.statements = []) ∧
+      qbinders ne = [] ∧
       ∀ G cx, (∀ q ∈ ne, Realizes G cx q) → need = true →
         Impl G cx (emptyStep post need s).2 0 [] post := by
   unfold emptyStep
@@ -742,7 +780,7 @@ theorem emptyStep_spec (post : Option Nat) (need : Bool) (s : WS) :
   | false => exact ⟨[], Grows.refl s, by simp, rfl, fun _ _ _ h => by cases h⟩
   | true =>
     refine ⟨[{ id := s.counter + 1, returnID := post }], Grows.allocPush s _ rfl, ?_, ?_, ?_⟩
-    · intro q hq; simp only [List.mem_singleton] at hq; subst hq; exact ⟨rfl, rfl⟩
+    · intro q hq; simp only [List.mem_singleton] at hq; subst hq; exact ⟨⟨rfl, rfl⟩, rfl⟩
     · rw [qbinders_cons, qbinders_nil]; rfl
     · intro G cx hq _
       have := hq _ (List.mem_singleton.2 rfl)
@@ -778,7 +816,9 @@ theorem createSwitch_spec (tok : Tok) (sid : Nat) (operand : Tok) (cases : List 
     (i : Nat) (s s' : WS) (br : Branch) (ret : Option Nat) (swId : Nat) (rest : List Stmt)
     (hi : i < c.statements.length) (hrest : c.statements.drop (i + 1) = rest)
     (h : createSwitch operand cases c i s = (s', br, ret, swId)) :
-    ∃ nw, Grows s s' nw ∧ (∀ q ∈ nw, QOK q) ∧
+    ∃ nw, Grows s s' nw ∧
+      (∀ q ∈ nw, QOK q ∧ (q.statements = [] ∨ q.statements = rest ∨
+        q.statements ∈ subBlocks (.switch_ tok sid operand cases))) ∧
       (qbinders nw).Perm (bindersC cases ++ bindersL rest) ∧
       ∀ G cx ch, findChunk G c.id = some ch → ch.branch = br → ch.statements.length = i →
         cx.brk sid = ret →
@@ -805,9 +845,9 @@ theorem createSwitch_spec (tok : Tok) (sid : Nat) (operand : Tok) (cases : List 
     · intro q hq
       simp only [List.mem_append, List.mem_singleton] at hq
       rcases hq with (hq | rfl) | hq
-      · exact (csp q hq).qok
-      · exact IsCode.qok ⟨rfl, rfl⟩
-      · exact (cb q hq).qok
+      · exact ⟨(csp q hq).1.qok, .inr (.inl (csp q hq).2)⟩
+      · exact ⟨IsCode.qok ⟨rfl, rfl⟩, .inl rfl⟩
+      · exact ⟨(cb q hq).1.qok, .inr (.inr (cb q hq).2)⟩
     · simp only [qbinders_append, bsp, bb, qbinders_cons, qbinders_nil, bindersL_nil, List.append_nil]
       exact List.perm_append_comm
     · intro G cx ch hG hbr hlenI hbrk hq hod
@@ -843,10 +883,10 @@ theorem createSwitch_spec (tok : Tok) (sid : Nat) (operand : Tok) (cases : List 
     · intro q hq
       simp only [List.mem_append, List.mem_cons] at hq
       rcases hq with hq | rfl | hq | hq
-      · exact (csp q hq).qok
-      · exact IsHelper.qok ⟨rfl, switchBranchOf_ne_none _ _ _ _ _, rfl⟩
-      · exact (cb q hq).qok
-      · exact (ce q hq).qok
+      · exact ⟨(csp q hq).1.qok, .inr (.inl (csp q hq).2)⟩
+      · exact ⟨IsHelper.qok ⟨rfl, switchBranchOf_ne_none _ _ _ _ _, rfl⟩, .inl rfl⟩
+      · exact ⟨(cb q hq).1.qok, .inr (.inr (cb q hq).2)⟩
+      · exact ⟨(ce q hq).1.qok, .inl (ce q hq).2⟩
     · simp only [qbinders_append, bsp, bb, be, qbinders_cons, bindersL_nil, List.append_nil,
         List.nil_append]
       exact List.perm_append_comm
